@@ -579,6 +579,12 @@ def c10(H):
             continue
         if any(g["flags_at_return"]) or _window_disturbed(H, g["start"], g["end"]):
             continue
+        to = g["timeout_kw"]
+        if to is not None and (to < 10 or any(k == "fire" and d.get("pid") != 1000 and st_ <= g["end"] for st_, k, d in H.events)):
+            # with a short idle timeout a worker may leave on its own at any moment of the call without any observable
+            # timer event of its own (its deadline passes while another timer moves the clock): "no worker timed out
+            # meanwhile" cannot be established from outside, so the survivor clause is only checked for timeout None / >= 10 s
+            continue
         new = g["requested"]
         if new == g["prev_max_workers"]:
             continue          # the statement is about a *different* max_workers (an equal one is a no-op)
